@@ -197,7 +197,7 @@ theorem OC.kwayLoop (R : RHyp E rank Good) {fuel : Nat} : ∀ (k : Nat) {s s' : 
       obtain ⟨pa, q, nt⟩ := e
       obtain ⟨hm, hsub⟩ := mem_of_pop _ _ _ _ hpop
       have hperm := Heapq.pop_perm _ _ _ _ hpop
-      obtain ⟨hsh', hmin⟩ := Heapq.pop_isHeap (ltS_weakOrder E.ops H.weak) _ _ _ h.sheap hpop
+      obtain ⟨hsh', hmin⟩ := Heapq.pop_isHeap_on (ltS_weakOrderOn H) _ _ _ (start_good R h.base.sinv) h.sheap hpop
       obtain ⟨g0, hnt0, hpq⟩ := h.ginv.popStart R.disj hpop
       have h0 : OG E rank { s with startHeap := h' } ((pa, q, nt) :: emE) := by
         refine ⟨⟨g0.sinv, g0.ninv, h.base.hinv, h.base.nodel⟩, g0, ?_, ?_, ?_, hsh', ?_⟩
@@ -219,7 +219,7 @@ theorem OC.kwayLoop (R : RHyp E rank Good) {fuel : Nat} : ∀ (k : Nat) {s s' : 
           (by
             intro x hx
             rcases List.mem_cons.mp hx with rfl | hx
-            · exact H.weak.irrefl _
+            · exact H.weak.irrefl (start_good R h.base.sinv _ hm)
             · exact h.heap_ge _ hm x hx)
           (by
             intro k w pr hk hw hpr
